@@ -453,6 +453,9 @@ outer:
 	for k, v := range e.cnt {
 		c.Add(k, v)
 	}
+	if c.Shard == 1 {
+		eachLeg(c)
+	}
 	if c.Shard == 0 {
 		var m []string
 		for _, n := range e.names {
@@ -479,6 +482,11 @@ func modelled(names []string) int {
 }
 
 func replay(c *core.Ctx, raw json.RawMessage) {
+	var ec eachCase
+	if err := json.Unmarshal(raw, &ec); err == nil && ec.Leg == "each" {
+		replayEach(c, ec)
+		return
+	}
 	var cs caseT
 	if err := json.Unmarshal(raw, &cs); err != nil {
 		c.HarnessError("bad case: %v", err)
